@@ -170,8 +170,24 @@ class Built:
     pass
 
 
+class SolverCrash(Exception):
+    pass
+
+
 def build(inst, settings, presolve_log=None):
-    """construct the real constraint; returns Built with .con, .user (Variable or None), .X"""
+    """construct the real constraint; returns Built with .con, .user (Variable or None), .X.
+    With presolve_trivial_age_cones the constructor itself runs ECOS (in-process) on small problems; ECOS can crash on degenerate
+    data, so the construction is first tried in a forked child and skipped (SolverCrash) when the child dies."""
+    import sageopt.coniclifts.constraints.set_membership.sage_cones as _sc
+    if settings.get('presolve_trivial_age_cones', _sc.SETTINGS['presolve_trivial_age_cones']):
+        import common
+        kind, _ = common.forked(lambda: (_build(inst, settings, None), None)[1], timeout=120)
+        if kind in ('crash', 'timeout'):
+            raise SolverCrash('the presolve\'s solver %s' % kind)
+    return _build(inst, settings, presolve_log)
+
+
+def _build(inst, settings, presolve_log=None):
     import sageopt.coniclifts as cl
     from sageopt.symbolic.signomials import SigDomain
     from sageopt.coniclifts.cones import Cone
